@@ -739,6 +739,33 @@ def transCode (fb : Float → Option Nat) (argc : Nat) (ents : List Entry) :
       | .error e => .error e
       | .ok rest => .ok (ws ++ rest)
 
+/-- `_ConvertValueType(ri.Value.Type)` of a returned operand. -/
+def retVT (ents : List Entry) : Opd → Option VT
+  | .cInt _ => some .i32
+  | .cFlt _ => some .f32
+  | .ref r =>
+    match lookupRef ents r with
+    | some (_, t) => (match convertVT t with | .ok v => some v | .error _ => none)
+    | none => none
+
+/-- `v_ReturnInstruction` (repaired): the returned value must be what the signature announces. -/
+def retInstrOK (results : List VT) (ents : List Entry) : Instr → Bool
+  | .ret none => results.isEmpty
+  | .ret (some v) =>
+    match retVT ents v with
+    | some t => results == [t]
+    | none => false
+  | _ => true
+
+def isReturn : Instr → Bool
+  | .ret _ => true
+  | _ => false
+
+/-- The two refusals of the repaired `v_Function` / `v_ReturnInstruction`: a return that does not match the result
+type, and a function with a result that contains no return at all. -/
+def retOK (results : List VT) (ents : List Entry) (code : List Instr) : Bool :=
+  code.all (retInstrOK results ents) && (results.isEmpty || code.any isReturn)
+
 /-- `v_Function`: signature, locals, body. -/
 def genFunc (fb : Float → Option Nat) (f : Func) : Except String (FuncType × WCode) :=
   match convertFuncType f with
@@ -752,7 +779,9 @@ def genFunc (fb : Float → Option Nat) (f : Func) : Except String (FuncType × 
       | .ok vts =>
         match transCode fb ft.params.length ents f.code with
         | .error e => .error e
-        | .ok body => .ok (ft, ⟨groupLocals vts, body⟩)
+        | .ok body =>
+          if retOK ft.results ents f.code then .ok (ft, ⟨groupLocals vts, body⟩)
+          else .error "Unsupported: a return does not match the result type of the function"
 
 def genFuncs (fb : Float → Option Nat) : List Func → Except String (List (FuncType × WCode))
   | [] => .ok []
